@@ -87,7 +87,7 @@ Definition v_ (n : nat) : rexpr := EVar n.
 Definition one_ : rexpr := EZ 1.
 Definition two_ : rexpr := EZ 2.
 Definition zero_ : rexpr := EZ 0.
-Definition gm_ : rexpr := EQ GM_Q.
+Definition gm_ (g : Q) : rexpr := EQ g.   (* GM: a rational parameter of every staged expression *)
 Definition neg_c (n : nat) : rexpr := ECos (ENeg (EVar n)).
 Definition neg_s (n : nat) : rexpr := ESin (ENeg (EVar n)).
 
@@ -102,7 +102,7 @@ Definition k2t_s1 : list rexpr :=
   [ECos (v_ 5); ESin (v_ 5); ESqrt (EMul (ESub one_ (v_ 1)) (EAdd one_ (v_ 1)));
    neg_c 3; neg_s 3; neg_c 2; neg_s 2; neg_c 4; neg_s 4].
 Definition k2t_s2 : list rexpr := [EMul (v_ 0) (ESub one_ (EMul (v_ 1) (v_ 6)))].
-Definition k2t_s3 : list rexpr := [EDiv (ESqrt (EMul gm_ (v_ 0))) (v_ 15)].
+Definition k2t_s3 (g : Q) : list rexpr := [EDiv (ESqrt (EMul (gm_ g) (v_ 0))) (v_ 15)].
 Definition k2t_s4 : list rexpr :=
   [EMul (v_ 0) (ESub (v_ 6) (v_ 1)); EMul (EMul (v_ 0) (v_ 8)) (v_ 7);
    EMul (ENeg (v_ 16)) (v_ 7); EMul (EMul (v_ 16) (v_ 8)) (v_ 6)].
@@ -128,7 +128,7 @@ Definition k2t_s5 : list rexpr := mmul_e (R3_e (v_ 9) (v_ 10)) (R1_e (v_ 11) (v_
 Definition k2t_s6 : list rexpr := mmul_e (vars9 21) (R3_e (v_ 13) (v_ 14)).
 Definition k2t_s7 : list rexpr :=
   mvec_e (vars9 30) [v_ 17; v_ 18; zero_] ++ mvec_e (vars9 30) [v_ 19; v_ 20; zero_].
-Definition k2t_stages : list (list rexpr) := [k2t_s1; k2t_s2; k2t_s3; k2t_s4; k2t_s5; k2t_s6; k2t_s7].
+Definition k2t_stages (g : Q) : list (list rexpr) := [k2t_s1; k2t_s2; k2t_s3 g; k2t_s4; k2t_s5; k2t_s6; k2t_s7].
 Definition k2t_out : list rexpr := [v_ 39; v_ 40; v_ 41; v_ 42; v_ 43; v_ 44].
 
 Definition stages_I (p : prec) (env : list I.type) (st : list (list rexpr)) : list I.type :=
@@ -149,15 +149,15 @@ Definition t2k_s1 : list rexpr :=
    ESub (EMul (v_ 2) (v_ 3)) (EMul (v_ 0) (v_ 5));
    ESub (EMul (v_ 0) (v_ 4)) (EMul (v_ 1) (v_ 3))].
 Definition t2k_s2 : list rexpr := [ESqrt (dot3 (v_ 8) (v_ 9) (v_ 10) (v_ 8) (v_ 9) (v_ 10))].
-Definition t2k_s3 : list rexpr :=
+Definition t2k_s3 (g : Q) : list rexpr :=
   [EDiv (v_ 8) (v_ 11); EDiv (v_ 9) (v_ 11); EDiv (v_ 10) (v_ 11);
-   EDiv one_ (ESub (EDiv two_ (v_ 6)) (EDiv (sq (v_ 7)) gm_));
+   EDiv one_ (ESub (EDiv two_ (v_ 6)) (EDiv (sq (v_ 7)) (gm_ g)));
    dot3 (v_ 0) (v_ 1) (v_ 2) (v_ 3) (v_ 4) (v_ 5)].
-Definition t2k_s4 : list rexpr :=
+Definition t2k_s4 (g : Q) : list rexpr :=
   [EAtan2 (ESqrt (EAdd (sq (v_ 12)) (sq (v_ 13)))) (v_ 14);
    EAtan2 (v_ 12) (ENeg (v_ 13));
-   EDiv (sq (v_ 11)) gm_;
-   ESqrt (EDiv gm_ (EMul (EMul (v_ 15) (v_ 15)) (v_ 15)))].
+   EDiv (sq (v_ 11)) (gm_ g);
+   ESqrt (EDiv (gm_ g) (EMul (EMul (v_ 15) (v_ 15)) (v_ 15)))].
 Definition true_anom_e (e E : rexpr) : rexpr :=
   EAtan2 (EMul (ESqrt (ESub one_ (EMul e e))) (ESin E)) (ESub (ECos E) e).
 Definition t2k_s5 : list rexpr :=
@@ -166,7 +166,7 @@ Definition t2k_s5 : list rexpr :=
    EAtan2 (v_ 2) (EAdd (EMul (ENeg (v_ 0)) (v_ 13)) (EMul (v_ 1) (v_ 12)))].
 Definition t2k_s6 : list rexpr := [true_anom_e (v_ 21) (v_ 22)].
 Definition t2k_s7 : list rexpr := [ESub (v_ 23) (v_ 24)].
-Definition t2k_stages : list (list rexpr) := [t2k_s1; t2k_s2; t2k_s3; t2k_s4; t2k_s5; t2k_s6; t2k_s7].
+Definition t2k_stages (g : Q) : list (list rexpr) := [t2k_s1; t2k_s2; t2k_s3 g; t2k_s4 g; t2k_s5; t2k_s6; t2k_s7].
 
 (* ---------------------------------------------------------------- tolerances.  1e-8 (round trip) is the figure of the
    property; 1e-10 is the harness' budget for implementation-vs-model (DESIGN 4.7); the absolute floor 1e-12 on e covers the
@@ -207,12 +207,12 @@ Definition dy_nonneg (x : dy) : bool :=
 
 (* ---------------------------------------------------------------- A. kepler2trs: elements (6 doubles) -> state (6 doubles)
    each position entry within 1e-10 * max|position entries| of the model, each velocity entry within 1e-10 * max|velocity| *)
-Definition k2t_env (p : prec) (k : list dy) : nat -> I.type := env_I (stages_I p (map (I_ofdy p) k) k2t_stages).
-Definition check_k2t (c : list dy * list dy) : Z :=
+Definition k2t_env (p : prec) (g : Q) (k : list dy) : nat -> I.type := env_I (stages_I p (map (I_ofdy p) k) (k2t_stages g)).
+Definition check_k2t_g (g : Q) (c : list dy * list dy) : Z :=
   let '(k, s) := c in
   match s with
   | [x; y; z; vx; vy; vz] =>
-      let env := k2t_env p128 k in
+      let env := k2t_env p128 g k in
       verdict ((length k =? 6)%nat &&
                check_all_abs p128 (tol_of rel10 [x; y; z]) env [v_ 39; v_ 40; v_ 41] [x; y; z] &&
                check_all_abs p128 (tol_of rel10 [vx; vy; vz]) env [v_ 42; v_ 43; v_ 44] [vx; vy; vz])
@@ -223,12 +223,12 @@ Definition check_k2t (c : list dy * list dy) : Z :=
    a relative 1e-10; e relative 1e-10 + 1e-12; i absolute 1e-10; Omega, omega, E within 1e-10 rad modulo one turn (the
    implementation may sit on the other side of an arctan2 cut / of the omega < 0 wrap by a rounding error), and every angle
    in its principal range: 0 <= i <= pi, |Omega| <= pi, 0 <= omega < 2 pi, |E| <= pi. *)
-Definition t2k_env (p : prec) (s : list dy) : nat -> I.type := env_I (stages_I p (map (I_ofdy p) s) t2k_stages).
-Definition check_t2k (c : list dy * list dy) : Z :=
+Definition t2k_env (p : prec) (g : Q) (s : list dy) : nat -> I.type := env_I (stages_I p (map (I_ofdy p) s) (t2k_stages g)).
+Definition check_t2k_g (g : Q) (c : list dy * list dy) : Z :=
   let '(s, k) := c in
   match k with
   | [a; e; i; Om; om; E] =>
-      let env := t2k_env p128 s in
+      let env := t2k_env p128 g s in
       verdict ((length s =? 6)%nat &&
                check_close_rel p128 rel10 0 (v_ 15) env a &&
                check_close_rel p128 rel10 abs12 (v_ 21) env e &&
@@ -259,18 +259,33 @@ Definition tb_s1 : list rexpr :=
 Definition tb_s2 : list rexpr := [ESqrt (dot3 (v_ 14) (v_ 15) (v_ 16) (v_ 14) (v_ 15) (v_ 16))].
 Definition le_scaled (p : prec) (env : nat -> I.type) (lhs : rexpr) (rel : Q) (scale : rexpr) : bool :=
   check_le p (EAbs lhs) (EMul (EQ rel) scale) env.
-Definition check_twobody (c : list dy * list dy) : Z :=
+Definition check_twobody_g (g : Q) (c : list dy * list dy) : Z :=
   let '(s, k) := c in
   let env := env_I (stages_I p128 (map (I_ofdy p128) (s ++ k)) [tb_s1; tb_s2]) in
   verdict ((length s =? 6)%nat && (length k =? 6)%nat &&
-    le_scaled p128 env (ESub (sq (v_ 13)) (EMul gm_ (ESub (EDiv two_ (v_ 12)) (EDiv one_ (v_ 6))))) rel9 (sq (v_ 13)) &&
-    le_scaled p128 env (ESub (sq (v_ 17)) (EMul (EMul gm_ (v_ 6)) (ESub one_ (sq (v_ 7))))) rel9 (sq (v_ 17)) &&
+    le_scaled p128 env (ESub (sq (v_ 13)) (EMul (gm_ g) (ESub (EDiv two_ (v_ 12)) (EDiv one_ (v_ 6))))) rel9 (sq (v_ 13)) &&
+    le_scaled p128 env (ESub (sq (v_ 17)) (EMul (EMul (gm_ g) (v_ 6)) (ESub one_ (sq (v_ 7))))) rel9 (sq (v_ 17)) &&
     le_scaled p128 env (ESub (ECos (v_ 8)) (EDiv (v_ 16) (v_ 17))) rel10 one_ &&
     le_scaled p128 env (ESub (EMul (ESin (v_ 8)) (ESin (v_ 9))) (EDiv (v_ 14) (v_ 17))) rel10 one_ &&
     le_scaled p128 env (ESub (ENeg (EMul (ESin (v_ 8)) (ECos (v_ 9)))) (EDiv (v_ 15) (v_ 17))) rel10 one_ &&
     le_scaled p128 env (ESub (v_ 12) (EMul (v_ 6) (ESub one_ (EMul (v_ 7) (ECos (v_ 11)))))) rel9 (v_ 12) &&
     le_scaled p128 env (ESub (dot3 (v_ 0) (v_ 1) (v_ 2) (v_ 3) (v_ 4) (v_ 5))
-                             (EMul (EMul (ESqrt (EMul gm_ (v_ 6))) (v_ 7)) (ESin (v_ 11)))) rel9 (EMul (v_ 12) (v_ 13))).
+                             (EMul (EMul (ESqrt (EMul (gm_ g) (v_ 6))) (v_ 7)) (ESin (v_ 11)))) rel9 (EMul (v_ 12) (v_ 13))).
+
+(* the checks with the library's default constant ... *)
+Definition check_k2t : list dy * list dy -> Z := check_k2t_g GM_Q.
+Definition check_t2k : list dy * list dy -> Z := check_t2k_g GM_Q.
+Definition check_twobody : list dy * list dy -> Z := check_twobody_g GM_Q.
+(* ... and with the constant of the n-th source of [GM] in constant.txt (Gen/C07_Const.GM_sources, regenerated): the conversion
+   was run inside `constant.use_source(<that source>)`.  An unknown index gives GM = 0 and every check fails. *)
+Definition gm_of_source (n : Z) : Q := nth (Z.to_nat n) (map fst GM_sources) 0%Q.
+Definition check_k2t_src (c : Z * list dy * list dy) : Z := let '(n, k, s) := c in check_k2t_g (gm_of_source n) (k, s).
+Definition check_t2k_src (c : Z * list dy * list dy) : Z := let '(n, s, k) := c in check_t2k_g (gm_of_source n) (s, k).
+Definition check_twobody_src (c : Z * list dy * list dy) : Z := let '(n, s, k) := c in check_twobody_g (gm_of_source n) (s, k).
+(* constant.GM observed inside use_source(n-th source) is the correctly rounded decimal of the text, and positive *)
+Definition check_const_src (c : Z * dy) : Z :=
+  let '(n, d) := c in verdict ((0 <=? n)%Z && (Z.to_nat n <? length GM_sources)%nat &&
+                               is_nearest_double (gm_of_source n) d && negb (Qle_bool (gm_of_source n) 0)).
 
 (* ---------------------------------------------------------------- D. round trips, exact rational arithmetic on the doubles.
    state -> elements -> state:  max |dpos| <= 1e-8 max |pos|,  max |dvel| <= 1e-8 max |vel|  (the property's figure) *)
